@@ -54,6 +54,9 @@ def run(rep, kf, tier, seed):
     import contracts.scalar_build as csb
     from pyvc import engine_b as _eb
     _eb.discharge(rep, kf, csb.all_contracts(), "C13", tier, seed)
+    # enum builders: the stored default is the conversion of this schema's own default
+    import contracts.registration as creg
+    _eb.discharge(rep, kf, [creg.enum_build_contract(), creg.literal_enum_build_contract()], "C13", tier, seed)
     from props.common import engine_b_crosscheck
     engine_b_crosscheck(rep, tier, convert_value=True)
     return {"level": "proof"}
